@@ -55,6 +55,9 @@ def for_seq_invariant(inv, havoc=None, kinds=None, defs=None):
         if not isinstance(it, SymSeq):
             raise Unsupported("loop rule expects a symbolic sequence, got %s" % type(it).__name__)
         n = it.len_term()
+        if defs is not None:
+            for ax in defs(env.locals, z3.IntVal(0), it):
+                path.assume(ax)
         for nm, g in inv(env.locals, z3.IntVal(0), it):
             path.oblige("loop%d_inv_entry:%s" % (env.loop_ordinal, nm), g, where="line %d" % s.lineno, kind="inv")
         names = havoc if havoc is not None else [x for x in assigned_names(s.body)]
@@ -103,8 +106,7 @@ def while_invariant(inv, variant=None, havoc=None):
         for nm, g in inv(interp, env):
             path.assume(g)
         c = interp.eval(s.test, env)
-        from .values import truth
-        if path.branch(truth(c)):
+        if path.branch(interp.truth(c)):
             v0 = variant(interp, env) if variant else None
             try:
                 interp.exec_block(s.body, env)
